@@ -1,6 +1,6 @@
-(** * Model.San — transcription of [ChessMove::from_san] (src/chess_move.rs, with the three
+(** * Model.San — transcription of [ChessMove::from_san] (src/chess_move.rs, with the four
     fix: commits: check marker after castling, en-passant capture without " e.p.", en-passant
-    capture without x rejected). *)
+    capture without x rejected, castling text only for a king move). *)
 From Chess Require Export Model.Fen.
 Open Scope N_scope.
 
@@ -51,7 +51,7 @@ Definition from_san (b:board) (move_text:str) : outcome cmove :=
   if str_eqb castle_text O_O || str_eqb castle_text O_O_O then
     let rank := my_backrank (stm b) in
     let m := {| msrc := mk_sq rank 4; mdst := mk_sq rank (if str_eqb castle_text O_O then 6 else 2); mpromo := None |} in
-    if existsb (cmove_eqb m) (moves_of b) then Ok m else Err
+    if piece_opt_eqb (piece_on b (msrc m)) King && existsb (cmove_eqb m) (moves_of b) then Ok m else Err
   else
   let cur := 0 in
   match get1 move_text cur with
